@@ -160,7 +160,13 @@ pub fn main_locks(args: &Args) {
         }
     }
     // ---- id stability --------------------------------------------------------------
-    for d in dirs.iter().take(if maxproj < 12 { 3 } else { 12 }) {
+    // (projects written for this purpose come on top: buildings whose walls carry several windows, with and without devices)
+    let idmap_dirs: Vec<PathBuf> = args.get("--idmap-dirs").map(|d| {
+        let mut v: Vec<PathBuf> = std::fs::read_dir(&d).map(|rd| rd.filter_map(|e| e.ok()).map(|e| e.path()).filter(|p| p.is_dir()).collect()).unwrap_or_default();
+        v.sort();
+        v
+    }).unwrap_or_default();
+    for d in dirs.iter().take(if maxproj < 12 { 3 } else { 12 }).chain(idmap_dirs.iter()) {
         let name = d.file_name().unwrap().to_string_lossy().to_string();
         let file = std::fs::read_dir(d).ok().and_then(|rd| rd.filter_map(|e| e.ok()).map(|e| e.path()).find(|p| p.extension().map_or(false, |x| x == "ctehexml")));
         if let Some(text) = file.and_then(|f| hulc_read(&f)) {
@@ -185,6 +191,23 @@ pub fn main_locks(args: &Args) {
                 }
                 if let (Some(g), Some(f)) = (first_named("GLASS-TYPE"), first_named("NAME-FRAME")) {
                     dynamic.push(("plus_gap".into(), format!("\n\"ZZZ_VERIF_GAP\" = GAP\n  NAME = \"ZZZ_VERIF_GAP\"\n  TYPE = 1\n  GROUP = \"Usuario\"\n  GROUP-GLASS = \"Vidrios\"\n  GLASS-TYPE = \"{}\"\n  GROUP-FRAME = \"Marcos\"\n  NAME-FRAME = \"{}\"\n  PORCENTAGE = 33\n  INF-COEF = 9\n  porcentajeIncrementoU = 7\n  ..\n", g, f)));
+                }
+                // a new window with an overhang, first window of the first exterior wall of the file: an addition that leaves
+                // every other element as it was
+                if let Some(g) = first_named("GAP") {
+                    let lines: Vec<&str> = text.lines().collect();
+                    if let Some(i0) = lines.iter().position(|l| { let t = l.trim(); t.starts_with('"') && t.ends_with("EXTERIOR-WALL") }) {
+                        if let Some(k) = lines[i0..].iter().position(|l| l.trim() == "..") {
+                            let at = i0 + k + 1;
+                            let win = format!("\"ZZZ_VERIF_WINDOW\" = WINDOW\n  X = 0.1\n  Y = 0.2\n  SETBACK = 0\n  HEIGHT = 0.5\n  WIDTH = 0.4\n  GAP = \"{}\"\n  OVERHANG-A = 0.1\n  OVERHANG-B = 0.1\n  OVERHANG-W = 0.6\n  OVERHANG-D = 0.3\n  OVERHANG-ANGLE = 90\n  ..", g);
+                            let mut l2: Vec<String> = lines.iter().map(|x| x.to_string()).collect();
+                            l2.insert(at, win);
+                            match convert_text(&l2.join("\n")) {
+                                Ok(m2) => out.push(json!({"ev": "IdMap", "input": name, "variant": "plus_window", "ids": id_map(&m2)})),
+                                Err(e) => out.push(json!({"ev": "IdMap", "input": name, "variant": "plus_window", "ids": [], "err": e})),
+                            }
+                        }
+                    }
                 }
                 if let Some(d) = first_named("DAY-SCHEDULE-PD") {
                     dynamic.push(("plus_week".into(), format!("\n\"ZZZ_VERIF_WEEK\" = WEEK-SCHEDULE-PD\n  TYPE = FRACTION\n  DAY-SCHEDULES = ( \"{}\" )\n  ..\n", d)));
